@@ -133,6 +133,18 @@ func (w *World) Fail(prop, sig, what string) {
 	w.Res.Violate(vk.Violation{Property: prop, Signature: sig, What: what, Seed: w.Seed, Case: w.Case, Witness: wit})
 }
 
+// FailAny records a violation that refutes several properties at once; it is
+// reported under the property being checked if that is one of them.
+func (w *World) FailAny(props []string, sig, what string) {
+	for _, p := range props {
+		if p == w.Prop {
+			w.Fail(p, sig, what)
+			return
+		}
+	}
+	w.Fail(props[0], sig, what)
+}
+
 // Describe renders the controller state.
 func (w *World) Describe() string {
 	st := w.C.VerifState()
